@@ -3,6 +3,7 @@ package sim
 import (
 	"bytes"
 	"fmt"
+	"os"
 
 	"verifsim/refotr"
 )
@@ -56,6 +57,25 @@ func (aw *AW) c02Check(p *Party, r *CallResult) *Violation {
 			why = "message belongs to another session"
 			if info.Sess >= 0 && info.Sess < len(ss.Sess) && rs.cur() != nil && ss.Sess[info.Sess].SSID == rs.cur().SSID {
 				authentic = true
+			} else if p.Idx < 2 {
+				// The shadows can lose a party (they follow the specification through the known
+				// DH-Commit collision defect, the real party does not). When a shadow's session is
+				// not the session the real party reports, "same session" is decided on what the two
+				// real parties reported: the sender's SSID when it emitted the message and the
+				// receiver's SSID before this call (agreement on SSIDs as such is C01's business).
+				sent, got := aw.posts[info.Call], aw.prevPost[p.Idx]
+				lostS := info.Sess < 0 || info.Sess >= len(ss.Sess) || ss.Sess[info.Sess].SSID != sent.SSID
+				lostR := rs.cur() == nil || rs.cur().SSID != got.SSID
+				// a message is emitted in the session the sender is in after the call (a text queued
+				// for the end of the key exchange) or was in before it (the disconnect notice of End)
+				sentEnc := sent.Enc || (aw.pres[info.Call].Enc && aw.pres[info.Call].SSID == sent.SSID)
+				if (lostS || lostR) && sentEnc && got.Enc && sent.SSID == got.SSID && sent.SSID != [8]byte{} {
+					authentic = true
+					rc.Probe("session_decided_on_reported_ssid")
+					if os.Getenv("VERIF_VERBOSE") != "" {
+						fmt.Printf("C02DBG call #%d: fallback lostS=%v lostR=%v info.Sess=%d senderSessions=%d sent.SSID=%x got.SSID=%x shadowRecvCur=%v\n", r.Seq, lostS, lostR, info.Sess, len(ss.Sess), sent.SSID, got.SSID, rs.cur() != nil)
+					}
+				}
 			}
 		}
 	}
